@@ -1,2 +1,181 @@
-import Depccg.Read.Text
-import Depccg.Print.Text
+/-
+  C20  PTB and Japanese-bank text written by depccg reads back to the same tree.
+  Property theorems only; helper lemmas are in Depccg/Proofs/C20Lemmas.lean, definitions and
+  statements in Depccg/Props/C20Defs.lean.
+
+  `JaRoundtripStatement` is false as written (a token attribute whose value is the empty string
+  prints an empty inflection field, see `ja_roundtrip_original_false`); the corrected statement
+  `JaRoundtripStatement'` (extra hypothesis `AllToks JaInflOK t`) is proved as
+  `ja_roundtrip_partial`.
+-/
+import Depccg.Props.C20Defs
+import Depccg.Proofs.C20Lemmas
+
+namespace Depccg.C20
+open Depccg Str Print Read TextProps
+
+/-- a tree printed by `ptb_of` is read by `_parse_ptb` to its image (same categories, shape and
+    escaped words; guessed labels) -/
+theorem ptb_roundtrip : PtbRoundtripStatement := by
+  intro lang t s hc hs htok h
+  exact ptb_roundtrip_main lang t s hc hs htok h
+
+/-- a proper prefix of the fields of a printed PTB line is rejected -/
+theorem ptb_incomplete_rejected : PtbIncompleteRejectedStatement := by
+  intro lang t s k hc _ htok h hk
+  exact ptb_incomplete_main lang t s k hc htok h hk
+
+/-- a tree printed by `ja_of` is read by `_JaCCGLineReader` to its image, when no leaf prints an
+    empty inflection field -/
+theorem ja_roundtrip_partial : JaRoundtripStatement' := by
+  intro t s hc htok hinfl hsym h
+  exact ja_roundtrip_main t s hc htok hinfl hsym h
+
+/-- `_suffix` and `{…}` annotations of a leaf category are removed before it is read -/
+theorem ja_annot_irrelevant : JaAnnotIrrelevantStatement :=
+  ⟨cutSuffix_suffix, cutSuffix_id, stripDeps_group, stripDeps_id⟩
+
+/-! ### the hypotheses are satisfiable; the theorems evaluated on concrete trees -/
+
+instance (bad : List Nat) (w : Str) : Decidable (noneOf bad w) := by
+  unfold noneOf; infer_instance
+instance (s : Str) : Decidable (C05.TriPart s) := by unfold C05.TriPart; infer_instance
+instance (t : Token) : Decidable (JaInflOK t) := by unfold JaInflOK; infer_instance
+
+/-! #### English: `(ROOT (S[dcl] (NP John) (S[dcl]\NP sleeps)))` -/
+
+def exS : Cat := .atom (lit "S") (.un (some (lit "dcl")))
+def exNP : Cat := .atom (lit "NP") (.un none)
+def exVP : Cat := .fn exS cBSlash exNP
+
+def exEn : Tree :=
+  .bin exS (lit "ba") (lit "<") false
+    (.leaf exNP (Token.ofWord (lit "John")) [] [])
+    (.leaf exVP (Token.ofWord (lit "sleeps")) [] [])
+
+def exEnLine : Str := lit "(ROOT (S[dcl] (NP John) (S[dcl]\\NP sleeps)))"
+
+/-- what the reader returns: bare word tokens, default leaf labels, the label and head of the
+    guessed rule (backward application) on the binary node -/
+def exEnImage : Tree :=
+  .bin exS (lit "ba") (lit "<") true
+    (.leaf exNP [(lit "word", lit "John")] (lit "lex") (lit "<lex>"))
+    (.leaf exVP [(lit "word", lit "sleeps")] (lit "lex") (lit "<lex>"))
+
+theorem exS_wf : C05.WF exS := ⟨⟨by decide, by decide⟩, ⟨⟨by decide, by decide⟩, by decide⟩, by decide⟩
+theorem exNP_wf : C05.WF exNP := ⟨⟨by decide, by decide⟩, trivial, fun _ => rfl⟩
+
+theorem exEn_cats : AllCats CatOK exEn :=
+  ⟨⟨exS_wf, by decide, by decide⟩, ⟨exNP_wf, by decide, by decide⟩,
+   ⟨⟨exS_wf, by decide, exNP_wf⟩, by decide, by decide⟩⟩
+theorem exEn_sys : AllCats (OneSystem .en) exEn := by
+  simp [exEn, AllCats, OneSystem, exS, exNP, exVP, C14.AllUnary]
+theorem exEn_toks : AllToks PtbTokOK exEn :=
+  ⟨⟨lit "John", by decide, ⟨by decide, by decide⟩, by decide, by decide⟩,
+   ⟨lit "sleeps", by decide, ⟨by decide, by decide⟩, by decide, by decide⟩⟩
+
+example : ptbOf exEn = .ok exEnLine := by decide +kernel
+example : ptbImage .en exEn = .ok exEnImage := by decide +kernel
+/-- printed and read back, by evaluation … -/
+example : parsePtb .en exEnLine = .ok (exEnImage, exEnImage.tokens) := by decide +kernel
+/-- … and by the theorem -/
+example : ∃ t', ptbImage .en exEn = .ok t' ∧ parsePtb .en exEnLine = .ok (t', t'.tokens) :=
+  ptb_roundtrip .en exEn exEnLine exEn_cats exEn_sys exEn_toks (by decide +kernel)
+
+/-- the line has six fields … -/
+example : (splitOn cSpace exEnLine).length = 6 := by decide +kernel
+/-- … the first four are `(ROOT (S[dcl] (NP John)`: rejected, by evaluation … -/
+example : joinSep cSpace ((splitOn cSpace exEnLine).take 4) = lit "(ROOT (S[dcl] (NP John)" := by
+  decide +kernel
+example : parsePtb .en (lit "(ROOT (S[dcl] (NP John)") = .error .runtime := by decide +kernel
+example : parsePtb .en (lit "(ROOT (S[dcl] (NP John) (S[dcl]\\NP") = .error .runtime := by
+  decide +kernel
+/-- … and by the theorem -/
+example : ∃ e, parsePtb .en (joinSep cSpace ((splitOn cSpace exEnLine).take 4)) = .error e :=
+  ptb_incomplete_rejected .en exEn exEnLine 4 exEn_cats exEn_sys exEn_toks (by decide +kernel)
+    (by decide +kernel)
+
+/-! #### Japanese: categories with three-part features, rule symbol `<` -/
+
+def exJaNP : Cat :=
+  .atom (lit "NP") (.tri (lit "case") (lit "ga") (lit "mod") (lit "nm") (lit "fin") (lit "f"))
+def exJaS : Cat :=
+  .atom (lit "S") (.tri (lit "mod") (lit "nm") (lit "form") (lit "base") (lit "fin") (lit "t"))
+def exJaVP : Cat := .fn exJaS cBSlash exJaNP
+
+def exJaTok1 : Token := [(lit "word", lit "猫"), (lit "pos", lit "名詞"), (lit "pos1", lit "一般")]
+def exJaTok2 : Token :=
+  [(lit "word", lit "寝る"), (lit "pos", lit "動詞"), (lit "inflectionForm", lit "基本形"),
+   (lit "inflectionType", lit "一段")]
+
+def exJa : Tree :=
+  .bin exJaS (lit "ba") (lit "<") false (.leaf exJaNP exJaTok1 [] []) (.leaf exJaVP exJaTok2 [] [])
+
+def exJaLine : Str :=
+  lit ("{< S[mod=nm,form=base,fin=t] {NP[case=ga,mod=nm,fin=f] 猫/猫/名詞-一般/_} " ++
+       "{S[mod=nm,form=base,fin=t]\\NP[case=ga,mod=nm,fin=f] 寝る/寝る/動詞/基本形-一段}}")
+
+/-- what the reader returns: bare word tokens, the rule symbol as label and symbol, head left -/
+def exJaImage : Tree :=
+  .bin exJaS (lit "<") (lit "<") true
+    (.leaf exJaNP [(lit "word", lit "猫")] (lit "lex") (lit "<lex>"))
+    (.leaf exJaVP [(lit "word", lit "寝る")] (lit "lex") (lit "<lex>"))
+
+theorem exJaNP_ok : JaCatOK exJaNP := by
+  refine ⟨⟨⟨by decide, by decide⟩, ?_, by decide⟩, by decide, by decide⟩
+  refine ⟨?_, ?_, ?_, ?_, ?_, ?_⟩ <;> decide
+theorem exJaS_ok : JaCatOK exJaS := by
+  refine ⟨⟨⟨by decide, by decide⟩, ?_, by decide⟩, by decide, by decide⟩
+  refine ⟨?_, ?_, ?_, ?_, ?_, ?_⟩ <;> decide
+theorem exJa_cats : AllCats JaCatOK exJa :=
+  ⟨exJaS_ok, exJaNP_ok, ⟨exJaS_ok.1, by decide, exJaNP_ok.1⟩, by decide, by decide⟩
+theorem exJa_toks : AllToks JaTokOK exJa :=
+  ⟨⟨⟨lit "猫", by decide, ⟨by decide, by decide⟩, by decide⟩, by decide, by decide⟩,
+   ⟨⟨lit "寝る", by decide, ⟨by decide, by decide⟩, by decide⟩, by decide, by decide⟩⟩
+theorem exJa_infl : AllToks JaInflOK exJa :=
+  ⟨(by decide : JaInflOK exJaTok1), (by decide : JaInflOK exJaTok2)⟩
+theorem exJa_sym : SymOK exJa := ⟨by decide, trivial, trivial⟩
+
+example : jaOf exJa = .ok exJaLine := by decide +kernel
+example : jaImage exJa = .ok exJaImage := by decide +kernel
+/-- printed and read back, by evaluation (the tree, and the surface forms of the tokens) … -/
+example : (readJaLine exJaLine).map (·.1) = .ok exJaImage := by decide +kernel
+example : (readJaLine exJaLine).map (fun r => r.2.map fun tok => Token.getD tok (lit "surf") []) =
+    .ok [lit "猫", lit "寝る"] := by decide +kernel
+/-- … and by the theorem -/
+example : ∃ t' toks, jaImage exJa = .ok t' ∧ readJaLine exJaLine = .ok (t', toks) ∧
+    toks.map (fun tok => Token.getD tok (lit "surf") []) =
+      t'.tokens.map (fun tok => Token.getD tok (lit "word") []) :=
+  ja_roundtrip_partial exJa exJaLine exJa_cats exJa_toks exJa_infl exJa_sym (by decide +kernel)
+
+/-- a leaf category with the bank's `{I1}` and `_suffix` annotations reads to the same category,
+    and the annotated leaf line to the same leaf -/
+example : Cat.parse (stripDeps (cutSuffix (lit "NP[case=ga,mod=nm,fin=f]{I1}_I1(unk,I1)"))) =
+    .ok exJaNP := by decide +kernel
+example : readJaLine (lit "{NP[case=ga,mod=nm,fin=f]{I1}_I1 猫/猫/名詞-一般/_}") =
+    readJaLine (lit "{NP[case=ga,mod=nm,fin=f] 猫/猫/名詞-一般/_}") := by decide +kernel
+example : (readJaLine (lit "{NP[case=ga,mod=nm,fin=f]{I1}_I1 猫/猫/名詞-一般/_}")).map (·.1.cat) =
+    .ok exJaNP := by decide +kernel
+
+/-! #### the original Japanese statement is false -/
+
+/-- a token whose `inflectionForm` attribute is the empty string -/
+def cxTok : Token := [(lit "word", lit "a"), (lit "inflectionForm", [])]
+def cxTree : Tree := .leaf exNP cxTok [] []
+
+/-- the printed inflection field is empty, the reader's `[:-1]` eats the last `/` … -/
+example : jaOf cxTree = .ok (lit "{NP a/a/_/}") := by decide +kernel
+example : readJaLine (lit "{NP a/a/_/}") = .error .valueError := by decide +kernel
+
+/-- … so `JaRoundtripStatement` (without `JaInflOK`) does not hold -/
+theorem ja_roundtrip_original_false : ¬ JaRoundtripStatement := by
+  intro h
+  obtain ⟨t', toks, _, hr, _⟩ := h cxTree (lit "{NP a/a/_/}")
+    ⟨exNP_wf, by decide, by decide⟩
+    ⟨⟨lit "a", by decide, ⟨by decide, by decide⟩, by decide⟩, by decide, by decide⟩
+    trivial (by decide +kernel)
+  have : readJaLine (lit "{NP a/a/_/}") = .error .valueError := by decide +kernel
+  rw [this] at hr
+  exact absurd hr (by simp)
+
+end Depccg.C20
